@@ -20,8 +20,8 @@ func init() {
 		Variant{Prop: "C07", Name: "request-upper-bound-off", File: sy, Expect: "C07.b",
 			Old: "\t\treqTo := fromHead.Height() + size + 1", New: "\t\treqTo := fromHead.Height() + size"},
 		Variant{Prop: "C07", Name: "pending-removed-before-append", File: sy, Expect: "C07.c",
-			Old:  "\t\t// apply cached headers\n\t\tif err := s.store.Append(ctx, headers...); err != nil {\n\t\t\treturn err\n\t\t}\n\n\t\t// cleanup range only after we stored the headers\n\t\theadersRange.Remove(to)",
-			New:  "\t\theadersRange.Remove(to)\n\t\t// apply cached headers\n\t\tif err := s.store.Append(ctx, headers...); err != nil {\n\t\t\treturn err\n\t\t}"},
+			Old: "\t\t// apply cached headers\n\t\tif err := s.store.Append(ctx, headers...); err != nil {\n\t\t\treturn err\n\t\t}\n\n\t\t// cleanup range only after we stored the headers\n\t\theadersRange.Remove(to)",
+			New: "\t\theadersRange.Remove(to)\n\t\t// apply cached headers\n\t\tif err := s.store.Append(ctx, headers...); err != nil {\n\t\t\treturn err\n\t\t}"},
 		Variant{Prop: "C07", Name: "rest-not-requested", File: sy, Expect: "C07.c",
 			Old: "\t\tfromHead = headers[len(headers)-1]\n\t}\n\treturn s.requestHeaders(ctx, fromHead, to)", New: "\t\tfromHead = headers[len(headers)-1]\n\t}\n\tif fromHead.Height()+1 == to {\n\t\treturn nil\n\t}\n\treturn s.requestHeaders(ctx, fromHead, to)"},
 		Variant{Prop: "C07", Name: "state-error-never-cleared", File: sy, Expect: "C07.d",
